@@ -7,7 +7,7 @@ from __future__ import annotations
 from sim.pool import Pool
 from sim.ops_rdms import RdmsOps, gen_family, gen_op
 from sim.rngseam import RngSeam
-from checks import c10
+from checks import c10, c11
 
 PROPERTY = 'C12'
 RULE = ('seeded histories over a pool of aliased RDMs objects: producers (indexing, subset/subsample, concat, copy, round '
@@ -30,6 +30,10 @@ PRODUCERS = set(c10.PRODUCERS) | set(PROD_EXTRA)
 
 
 def gen_plan(rng, tier, index):
+    if rng.chance(0.35):      # dataset histories under the bystander rule
+        fam = c11.gen_data_family(rng)
+        n = rng.randint(2, 20 if rng.chance(0.3) else 8)
+        return {'machine': 'data', 'family': fam, 'ops': c11.gen_ops(rng, n, weights=c11.WEIGHTS + [('calc_rdm', 12)])}
     fam = gen_family(rng)
     n = rng.randint(3, 30 if rng.chance(0.3) else 10)
     return {'family': fam, 'ops': c10.gen_ops(rng, n, weights=WEIGHTS, producers=PRODUCERS),
@@ -46,11 +50,32 @@ def directed_plans(tier):
                 for tgt in (-1, -2):
                     plans.append({'family': fam, 'faults': {'rate': 0, 'kinds': []},
                                   'ops': [{**base, 'op': prod, 'a': [a0, 2, 3, 4, 5, 6]}, {**base, 'op': mut, 't': tgt}]})
+    for p in c11.directed_plans(tier):
+        plans.append({**p, 'machine': 'data'})
+    unsorted_root = {'temporal': False, 'ou': [5, 8, 2, 9, 4, 7], 'cu': [3, 9, 1], 'tu': [],
+                     'obs_desc': {'cond': {'values': [2, 0, 1, 1, 2, 0], 'container': 'list'}, 'run': {'values': [1, 0, 0, 1, 0, 1], 'container': 'array'}},
+                     'ch_desc': {'roi': {'values': [1, 2, 1], 'container': 'list'}, 'name': {'values': ['ch3', 'ch9', 'ch1'], 'container': 'list'}},
+                     'time_desc': {}, 'descriptors': {'subj': 's1', 'sess': 1}}
+    for a0 in range(6):
+        for a1 in range(6):
+            for fl in (False, True):
+                plans.append({'machine': 'data', 'family': {'roots': [unsorted_root]},
+                              'ops': [{**base, 'op': 'calc_rdm', 'a': [a0, a1, 1, 0, 0, 0], 'flag': fl, 'flag2': True}]})
+    dfam = c11.directed_plans(tier)[-1]['family']
+    for prod in sorted(c11.PRODUCERS):
+        for mut, _ in c11.INPLACE:
+            for tgt in (-1, -2):
+                for a0 in range(3):
+                    plans.append({'machine': 'data', 'family': dfam,
+                                  'ops': [{**base, 'op': prod, 'a': [a0, 2, 3, 4, 5, 6]}, {**base, 'op': mut, 't': tgt}]})
     return plans
 
 
-summarize = c10.summarize
+def summarize(plan):
+    return c11.summarize(plan) if plan.get('machine') == 'data' else c10.summarize(plan)
 
 
 def execute(plan, ctx):
+    if plan.get('machine') == 'data':
+        return c11.execute(plan, ctx, prop=PROPERTY)
     return c10.execute(plan, ctx, prop=PROPERTY)
